@@ -290,3 +290,614 @@ Proof.
         (split; [lia|]); (split; [exact Hct'|]); split; reflexivity. }
   destruct H as (_ & _ & H1 & H2). split; assumption.
 Qed.
+
+(* ====================================================================== HDDM-W (constant 0) *)
+
+Definition si0 (s : sinfo RealA) : Prop := si_mean s = 0.
+
+Lemma si_init0 : si0 si_init.
+Proof. reflexivity. Qed.
+
+Lemma si_update0 (lam : R) (s : sinfo RealA) : si0 s -> si0 (si_update lam s 0).
+Proof.
+  unfold si0, si_update. intros H. cbn [si_mean add sub mul RealA num]. rewrite H. ring.
+Qed.
+
+Lemma mcd_check0 (s1 s2 : sinfo RealA) (a : R) : si0 s1 -> si0 s2 -> mcd_check s1 s2 a = false.
+Proof.
+  unfold si0, mcd_check, mcd_bound. intros H1 H2.
+  cbn [add sub mul div sqrt ltb RealA num]. rewrite H1, H2. apply Rltb_false.
+  match goal with |- _ <= R_sqrt.sqrt ?x => pose proof (sqrt_pos x) end. lra.
+Qed.
+
+Definition hddmw_CInv (s : hddmw_st RealA) : Prop :=
+  si0 (wtotal s) /\ si0 (winc1 s) /\ si0 (winc2 s) /\ si0 (wdec1 s) /\ si0 (wdec2 s) /\
+  wdrift s = false /\ wwarning s = false.
+
+Ltac si0_tac := first [assumption | apply si_init0 | apply si_update0; assumption].
+
+Lemma hddmw_constant_zero : forall (c : hddmw_cfg RealA) ops,
+  0 < hw_alpha_d c <= 1 -> 0 < hw_alpha_w c <= 1 -> 0 <= hw_lambda c <= 1 -> const_ops 0 ops ->
+  wdrift (exec (HDDMWD RealA) c ops) = false /\ wwarning (exec (HDDMWD RealA) c ops) = false.
+Proof.
+  intros c ops Hd Hw Hl Hc.
+  assert (H : hddmw_CInv (exec (HDDMWD RealA) c ops)).
+  { apply (const_invariant (HDDMWD RealA) c 0 hddmw_CInv); [| | reflexivity | exact Hc].
+    - unfold hddmw_CInv. cbn [d_init HDDMWD hddmw_init wtotal winc1 winc2 wdec1 wdec2 wdrift wwarning].
+      repeat split; apply si_init0.
+    - intros s (Ht & Hi1 & Hi2 & Hd1 & Hd2 & _ & _). cbn [d_step HDDMWD].
+      unfold hddmw_step. cbv zeta.
+      destruct (lt_opt _ (winc_cut s)); destruct (hw_two c); try destruct (gt_opt _ (wdec_cut s));
+        cbv beta iota;
+        repeat rewrite mcd_check0 by si0_tac; cbn [orb];
+        destruct (hw_min c <=? wn s + 1)%Z; unfold hddmw_CInv;
+        cbn [wtotal winc1 winc2 wdec1 wdec2 wdrift wwarning];
+        repeat split; si0_tac. }
+  destruct H as (_ & _ & _ & _ & _ & H1 & H2). split; assumption.
+Qed.
+
+(* ====================================================================== HDDM-A *)
+
+Lemma ln_inv_alpha_nonneg (alpha : R) : 0 < alpha <= 1 -> 0 <= Rpower.ln (1 / alpha).
+Proof.
+  intros [H0 H1].
+  assert (H : 1 <= 1 / alpha).
+  { unfold Rdiv. rewrite Rmult_1_l. rewrite <- Rinv_1 at 1. apply Rinv_le_contravar; lra. }
+  destruct H as [H | H].
+  - rewrite <- ln_1. left. apply ln_increasing; lra.
+  - rewrite <- H, ln_1. lra.
+Qed.
+
+Lemma hoeff_mono (alpha : R) (n : Z) : 0 < alpha <= 1 -> (1 <= n)%Z ->
+  hoeff_bound (A:=RealA) alpha (n + 1) <= hoeff_bound (A:=RealA) alpha n.
+Proof.
+  intros Ha Hn. unfold hoeff_bound, one. cbn [div sqrt ln ofZ RealA num].
+  apply sqrt_le_1_alt. pose proof (ln_inv_alpha_nonneg alpha Ha) as Hln.
+  unfold Rdiv at 1 3. apply Rmult_le_compat_l; [exact Hln|].
+  apply Rinv_le_contravar; [apply IZR_lt; lia | apply IZR_le; lia].
+Qed.
+
+Lemma cut_x_const (alpha k : R) (m : mean_st RealA) :
+  0 < alpha <= 1 -> mean_const k m ->
+  (if @leb RealA
+        (@add RealA (m_mean (mean_update m k)) (hoeff_bound alpha (m_n (mean_update m k))))
+        (@add RealA (m_mean (if (m_n m =? 0)%Z then mean_update m k else m))
+             (hoeff_bound alpha (m_n (if (m_n m =? 0)%Z then mean_update m k else m))))
+   then mean_update m k else (if (m_n m =? 0)%Z then mean_update m k else m)) = mean_update m k.
+Proof.
+  intros Ha Hm. destruct (mean_update_const k m Hm) as [Hz Hzn]. destruct Hm as [Hn Hmk].
+  destruct (m_n m =? 0)%Z eqn:E.
+  - destruct (leb _ _); reflexivity.
+  - apply Z.eqb_neq in E. rewrite Hz, Hzn, Hmk by lia.
+    cbn [add leb RealA num].
+    replace (Rleb _ _) with true; [reflexivity|].
+    symmetry. apply Rleb_true. pose proof (hoeff_mono alpha (m_n m) Ha ltac:(lia)). lra.
+Qed.
+
+Lemma cut_y_const (alpha k : R) (m : mean_st RealA) :
+  0 < alpha <= 1 -> mean_const k m ->
+  (if @leb RealA
+        (@sub RealA (m_mean (if (m_n m =? 0)%Z then mean_update m k else m))
+             (hoeff_bound alpha (m_n (if (m_n m =? 0)%Z then mean_update m k else m))))
+        (@sub RealA (m_mean (mean_update m k)) (hoeff_bound alpha (m_n (mean_update m k))))
+   then mean_update m k else (if (m_n m =? 0)%Z then mean_update m k else m)) = mean_update m k.
+Proof.
+  intros Ha Hm. destruct (mean_update_const k m Hm) as [Hz Hzn]. destruct Hm as [Hn Hmk].
+  destruct (m_n m =? 0)%Z eqn:E.
+  - destruct (leb _ _); reflexivity.
+  - apply Z.eqb_neq in E. rewrite Hz, Hzn, Hmk by lia.
+    cbn [sub leb RealA num].
+    replace (Rleb _ _) with true; [reflexivity|].
+    symmetry. apply Rleb_true. pose proof (hoeff_mono alpha (m_n m) Ha ltac:(lia)). lra.
+Qed.
+
+Lemma side_cases_same (chk : R -> bool) n (c : hddma_cfg RealA) :
+  side_cases (A:=RealA) chk n n c = (false, false).
+Proof. unfold side_cases. rewrite Z.eqb_refl. reflexivity. Qed.
+
+Definition hddma_CInv (c : hddma_cfg RealA) (k : R) (s : hddma_st RealA) : Prop :=
+  mean_const k (hz s) /\ hx s = hz s /\ hy s = (if ha_two c then hz s else mean_init) /\
+  hdrift s = false /\ hwarning s = false.
+
+Lemma hddma_constant : forall (c : hddma_cfg RealA) (k : R) ops,
+  0 < ha_alpha_d c <= 1 -> 0 < ha_alpha_w c <= 1 -> const_ops k ops ->
+  hdrift (exec (HDDMAD RealA) c ops) = false /\ hwarning (exec (HDDMAD RealA) c ops) = false.
+Proof.
+  intros c k ops Hd Hw Hc.
+  assert (H : hddma_CInv c k (exec (HDDMAD RealA) c ops)).
+  { apply (const_invariant (HDDMAD RealA) c k (hddma_CInv c k)); [| | reflexivity | exact Hc].
+    - unfold hddma_CInv. cbn [d_init HDDMAD hddma_init hx hz hy hdrift hwarning].
+      split; [apply mean_const_init|]. repeat split; auto. destruct (ha_two c); reflexivity.
+    - intros s (Hm & Hx & Hy & _ & _). cbn [d_step HDDMAD]. unfold hddma_step. cbv zeta.
+      pose proof (mean_const_update k _ Hm) as Hmc.
+      rewrite Hx. rewrite (cut_x_const (ha_alpha_d c) k (hz s) Hd Hm).
+      rewrite side_cases_same.
+      destruct (ha_two c) eqn:E2.
+      + rewrite Hy. rewrite (cut_y_const (ha_alpha_d c) k (hz s) Hd Hm).
+        rewrite side_cases_same. cbv beta iota. cbn [orb].
+        destruct (ha_min c <=? hn s + 1)%Z; unfold hddma_CInv; cbn [hx hz hy hdrift hwarning];
+          rewrite E2; repeat split; auto; apply Hmc.
+      + cbv beta iota. cbn [orb].
+        destruct (ha_min c <=? hn s + 1)%Z; unfold hddma_CInv; cbn [hx hz hy hdrift hwarning];
+          rewrite E2; repeat split; auto; apply Hmc. }
+  destruct H as (_ & _ & _ & H1 & H2). split; assumption.
+Qed.
+
+(* ====================================================================== KSWIN *)
+
+Section KSWIN.
+Local Open Scope Z_scope.
+
+Lemma in_band_0 n m i j : in_band n m 0 i j = false.
+Proof. unfold in_band. apply Z.ltb_ge. apply Z.abs_nonneg. Qed.
+
+Lemma row_next_0 n m i : forall prev j left,
+  row_next n m 0 i prev j left = repeat 0 (length prev).
+Proof.
+  induction prev as [|up r IH]; intros j left; cbn [row_next length repeat]; [reflexivity|].
+  cbv zeta. rewrite in_band_0. rewrite IH. reflexivity.
+Qed.
+
+Lemma rows_0 n m : forall k i L, rows n m 0 k i (repeat 0 L) = repeat 0 L.
+Proof.
+  induction k as [|k IH]; intros i L; cbn [rows]; [reflexivity|].
+  rewrite row_next_0, repeat_length. apply IH.
+Qed.
+
+Lemma last_repeat_0 : forall L, last (repeat 0 L) 0 = 0.
+Proof.
+  induction L as [|L IH]; [reflexivity|]. destruct L as [|L]; [reflexivity|].
+  change (last (repeat 0 (S (S L))) 0) with (last (repeat 0 (S L)) 0). exact IH.
+Qed.
+
+Lemma paths_inside_0 n m : paths_inside n m 0 = 0.
+Proof.
+  unfold paths_inside. cbn [rows]. rewrite row_next_0. rewrite rows_0. apply last_repeat_0.
+Qed.
+
+Lemma in_band_total n m i j : 0 <= i <= n -> 0 <= j <= m -> in_band n m (n * m + 1) i j = true.
+Proof.
+  intros Hi Hj. unfold in_band. apply Z.ltb_lt.
+  assert (0 <= i * m <= n * m) by nia.
+  assert (0 <= j * n <= n * m) by nia. lia.
+Qed.
+
+Lemma row_next_length n m H i : forall prev j left,
+  length (row_next n m H i prev j left) = length prev.
+Proof.
+  induction prev as [|up r IH]; intros j left; cbn [row_next length]; [reflexivity|].
+  cbv zeta. cbn [length]. rewrite IH. reflexivity.
+Qed.
+
+Lemma row_next_pos n m i : 0 <= i <= n ->
+  forall prev j left, 0 <= j -> j + Z.of_nat (length prev) <= m + 1 ->
+    Forall (fun x => 0 <= x) prev -> 0 <= left -> (1 <= left \/ 1 <= hd 0 prev) ->
+    Forall (fun x => 1 <= x) (row_next n m (n * m + 1) i prev j left).
+Proof.
+  intros Hi. induction prev as [|up r IH]; intros j left Hj Hlen Hnn Hl Hone; cbn [row_next].
+  - constructor.
+  - cbv zeta. cbn [length] in Hlen. rewrite in_band_total by lia.
+    inversion Hnn as [|? ? Hup Hr]; subst. cbn [hd] in Hone.
+    constructor; [lia|].
+    apply IH; [lia | lia | exact Hr | lia | left; lia].
+Qed.
+
+Lemma rows_pos n m : 0 <= m -> forall k i prev, 0 <= i -> i + Z.of_nat k <= n + 1 ->
+  Z.of_nat (length prev) = m + 1 -> Forall (fun x => 1 <= x) prev ->
+  Forall (fun x => 1 <= x) (rows n m (n * m + 1) k i prev) /\
+  Z.of_nat (length (rows n m (n * m + 1) k i prev)) = m + 1.
+Proof.
+  intros Hm. induction k as [|k IH]; intros i prev Hi Hik Hlen HF; cbn [rows].
+  - split; assumption.
+  - apply IH; [lia | lia | rewrite row_next_length; exact Hlen |].
+    apply row_next_pos; [lia | lia | lia | | lia |].
+    + eapply Forall_impl; [|exact HF]. cbv beta. intros; lia.
+    + right. destruct prev as [|a r]; [cbn [length] in Hlen; lia|].
+      inversion HF; subst. cbn [hd]. assumption.
+Qed.
+
+Lemma Forall_last {T} (P : T -> Prop) : forall l d, l <> [] -> Forall P l -> P (last l d).
+Proof.
+  induction l as [|a l IH]; intros d Hne HF; [congruence|].
+  inversion HF as [|? ? Ha Hl]; subst. destruct l as [|b l']; [exact Ha|].
+  apply (IH d); [discriminate | exact Hl].
+Qed.
+
+Lemma Forall_repeat {T} (P : T -> Prop) x n : P x -> Forall P (repeat x n).
+Proof. intros H. induction n; cbn [repeat]; constructor; assumption. Qed.
+
+Lemma paths_total_pos n m : 0 <= n -> 0 <= m -> 0 < paths_total n m.
+Proof.
+  intros Hn Hm. unfold paths_total, paths_inside. cbn [rows].
+  set (r0 := row_next n m (n * m + 1) 0 (1 :: repeat 0 (Z.to_nat m)) 0 0).
+  assert (Hlen0 : Z.of_nat (length (1 :: repeat 0 (Z.to_nat m))) = m + 1).
+  { cbn [length]. rewrite repeat_length. lia. }
+  assert (HF0 : Forall (fun x => 1 <= x) r0).
+  { unfold r0. apply row_next_pos; [lia | lia | lia | | lia | right; cbn [hd]; lia].
+    constructor; [lia|]. apply Forall_repeat. lia. }
+  assert (Hl0 : Z.of_nat (length r0) = m + 1).
+  { unfold r0. rewrite row_next_length. exact Hlen0. }
+  destruct (rows_pos n m Hm (Z.to_nat n) (0 + 1) r0 ltac:(lia) ltac:(lia) Hl0 HF0) as [HF Hl].
+  assert (Hne : rows n m (n * m + 1) (Z.to_nat n) (0 + 1) r0 <> []).
+  { intros E. rewrite E in Hl. cbn [length] in Hl. lia. }
+  pose proof (Forall_last (fun x => 1 <= x) _ 0 Hne HF) as HL. cbv beta in HL. lia.
+Qed.
+
+Lemma count_le_const (k : R) (l : list R) :
+  Forall (fun x => x = k) l -> count_le (A:=RealA) k l = len (A:=RealA) l.
+Proof.
+  intros HF. unfold count_le, len.
+  assert (G : forall acc,
+    fold_left (fun acc (x : num RealA) => if @leb RealA x k then acc + 1 else acc) l acc
+    = acc + Z.of_nat (length l)).
+  { induction HF as [|x l Hx HF IH]; intros acc; cbn [fold_left length].
+    - lia.
+    - subst x. cbn [leb RealA].
+      replace (Rleb k k) with true by (symmetry; apply Rleb_true; apply Rle_refl).
+      rewrite IH. lia. }
+  rewrite G. apply Z.add_0_l.
+Qed.
+
+Lemma ks_H_const (k : R) (X Y : list R) :
+  Forall (fun x => x = k) X -> Forall (fun x => x = k) Y -> ks_H (A:=RealA) X Y = 0.
+Proof.
+  intros HX HY. unfold ks_H.
+  assert (G : forall l : list R, Forall (fun x => x = k) l ->
+    fold_left (fun acc (z : num RealA) =>
+       Z.max acc (Z.abs (count_le (A:=RealA) z X * len (A:=RealA) Y
+                         - count_le (A:=RealA) z Y * len (A:=RealA) X))) l 0 = 0).
+  { intros l HF. induction HF as [|z l Hz HF IH]; cbn [fold_left]; [reflexivity|].
+    subst z. rewrite !(count_le_const k) by assumption.
+    replace (len X * len Y - len Y * len X) with 0 by ring.
+    cbn [Z.abs Z.max Z.compare]. exact IH. }
+  apply G. apply Forall_app; split; assumption.
+Qed.
+
+Lemma len_nonneg (l : list R) : 0 <= len (A:=RealA) l.
+Proof. unfold len. lia. Qed.
+
+Lemma ks_p_le_const (k : R) (X Y : list R) a b :
+  Forall (fun x => x = k) X -> Forall (fun x => x = k) Y -> a < b ->
+  ks_p_le (A:=RealA) X Y a b = false.
+Proof.
+  intros HX HY Hab. unfold ks_p_le, ks_p_frac. cbv zeta beta iota.
+  rewrite (ks_H_const k) by assumption. rewrite paths_inside_0.
+  pose proof (paths_total_pos _ _ (len_nonneg X) (len_nonneg Y)) as Hpos.
+  apply Z.leb_gt. nia.
+Qed.
+
+Lemma Forall_skipn {T} (P : T -> Prop) : forall n l, Forall P l -> Forall P (skipn n l).
+Proof.
+  induction n as [|n IH]; intros l HF; [exact HF|].
+  destruct l as [|a l]; [constructor|]. inversion HF; subst. cbn [skipn]. apply IH. assumption.
+Qed.
+
+Lemma Forall_lastn {T} (P : T -> Prop) n (l : list T) : Forall P l -> Forall P (lastn n l).
+Proof. unfold lastn. apply Forall_skipn. Qed.
+
+Definition kswin_CInv (k : R) (s : kswin_st RealA) : Prop :=
+  Forall (fun x => x = k) (kwin s) /\ kdrift s = false.
+
+Lemma kswin_constant : forall (c : kswin_cfg) (k : R) (ops : list (op (R * list R))),
+  (0 < kw_alpha_num c)%Z -> (kw_alpha_num c < kw_alpha_den c)%Z -> (1 <= kw_test c)%Z ->
+  Forall (fun o => o = Rst \/ exists sample, o = Upd (k, sample) /\
+            (sample = [] \/ (length sample = Z.to_nat (kw_test c) /\ Forall (fun x => x = k) sample))) ops ->
+  kdrift (exec (KSWIND RealA) c ops) = false.
+Proof.
+  intros c k ops Hnum Hden Htest Hops.
+  assert (G : forall ops s,
+    Forall (fun o => o = Rst \/ exists sample, o = Upd (k, sample) /\
+            (sample = [] \/ (length sample = Z.to_nat (kw_test c) /\ Forall (fun x => x = k) sample))) ops ->
+    kswin_CInv k s -> kswin_CInv k (exec_from (KSWIND RealA) c s ops)).
+  { clear ops Hops. induction ops as [|o r IH]; intros s Hc Hi.
+    - exact Hi.
+    - rewrite exec_from_cons. inversion Hc as [|o' r' Ho Hr']; subst.
+      apply IH; [exact Hr'|].
+      destruct Ho as [-> | (sample & -> & Hsample)]; cbn [apply].
+      + split; [constructor | reflexivity].
+      + destruct Hi as [Hwin _]. cbn [d_step KSWIND]. unfold kswin_step. cbv zeta.
+        assert (HS : Forall (fun x => x = k) sample).
+        { destruct Hsample as [-> | [_ HS]]; [constructor | exact HS]. }
+        assert (HW : Forall (fun x : R => x = k) (lastn (Z.to_nat (kw_min c)) (kwin s ++ [k]))).
+        { apply Forall_lastn. apply Forall_app. split; [exact Hwin|]. constructor; [reflexivity|constructor]. }
+        unfold kswin_CInv. cbn [kwin kdrift]. split; [exact HW|].
+        rewrite (ks_p_le_const k); [apply andb_false_r | exact HS | apply Forall_lastn; exact HW | exact Hden]. }
+  destruct (G ops (d_init (KSWIND RealA) c) Hops) as [_ H].
+  - split; [constructor | reflexivity].
+  - exact H.
+Qed.
+
+End KSWIN.
+
+(* ====================================================================== RDDM *)
+
+(** every slot of the prediction queue is empty or holds the constant *)
+Definition slot_ok (k : R) (o : option R) : Prop := o = None \/ o = Some k.
+Definition slots_ok (k : R) (q : cq R) : Prop := Forall (slot_ok k) (q_slots q).
+
+Lemma slots_ok_init k n : slots_ok k (cq_init n).
+Proof. unfold slots_ok, cq_init. cbn [q_slots]. apply Forall_repeat. left. reflexivity. Qed.
+
+Lemma Forall_set_nth {T} (P : T -> Prop) (x : T) : forall l n, P x -> Forall P l -> Forall P (set_nth n x l).
+Proof.
+  induction l as [|a l IH]; intros n Hx HF; cbn [set_nth].
+  - destruct n; constructor.
+  - inversion HF; subst. destruct n; constructor; auto.
+Qed.
+
+Lemma slots_ok_enqueue k (q q' : cq R) el :
+  slots_ok k q -> cq_enqueue q k = Ok (q', el) -> slots_ok k q'.
+Proof.
+  unfold slots_ok, cq_enqueue, cq_dequeue. intros Hq He.
+  destruct (cq_is_full q).
+  - destruct (cq_is_empty q); [discriminate|]. destruct (q_max q =? 0)%Z eqn:E0; [discriminate|].
+    cbn [bind q_max q_last q_slots q_count q_first] in He. rewrite E0 in He.
+    inversion He; subst. cbn [q_slots]. apply Forall_set_nth; [right; reflexivity | exact Hq].
+  - cbn [bind] in He. destruct (q_max q =? 0)%Z; [discriminate|].
+    inversion He; subst. cbn [q_slots]. apply Forall_set_nth; [right; reflexivity | exact Hq].
+Qed.
+
+Lemma slots_ok_enqueue_or k (q : cq R) :
+  slots_ok k q -> slots_ok k (match cq_enqueue q k with Ok (q', _) => q' | Raise _ => q end).
+Proof.
+  intros Hq. destruct (cq_enqueue q k) as [[q' el]|e] eqn:E; [|exact Hq].
+  eapply slots_ok_enqueue; eauto.
+Qed.
+
+Lemma slots_ok_keep_last k (q : cq R) : slots_ok k q -> slots_ok k (cq_keep_last q).
+Proof. unfold slots_ok, cq_keep_last. intros H. destruct (cq_is_empty q); exact H. Qed.
+
+Lemma read_from_ok k (q : cq R) : slots_ok k q -> forall n pos, Forall (slot_ok k) (read_from q pos n).
+Proof.
+  intros Hq. induction n as [|n IH]; intros pos; cbn [read_from]; constructor; [|apply IH].
+  unfold slot. destruct (nth_in_or_default (Z.to_nat pos) (q_slots q) None) as [Hin | ->].
+  - unfold slots_ok in Hq. rewrite Forall_forall in Hq. apply Hq. exact Hin.
+  - left. reflexivity.
+Qed.
+
+Lemma cq_abs_ok k (q : cq R) : slots_ok k q -> Forall (slot_ok k) (cq_abs q).
+Proof. intros Hq. unfold cq_abs. apply read_from_ok. exact Hq. Qed.
+
+Definition mins_ok (k : R) (m : mins (A:=RealA)) : Prop := m = None \/ m = Some (k, 0).
+
+Definition rebuild_good (k : R) (acc : Z * mean_st RealA * mins (A:=RealA)) : Prop :=
+  mean_const k (snd (fst acc)) /\ mins_ok k (snd acc).
+
+Lemma rebuild_one_good (c : rddm_cfg RealA) (k : R) (d : bool) acc ov :
+  (k = 0 \/ k = 1) -> rebuild_good k acc -> slot_ok k ov -> rebuild_good k (rebuild_one c d acc ov).
+Proof.
+  intros Hk Hacc Hov. destruct acc as [[n er] m]. destruct Hacc as [Hm Hmin]. cbn [fst snd] in Hm, Hmin.
+  unfold rebuild_one. destruct Hov as [-> | ->]; [split; assumption|].
+  cbv zeta. destruct (mean_update_const k _ Hm) as [Hm' _].
+  rewrite Hm'. rewrite (eps_std_const k _ Hk). cbv beta iota.
+  split; cbn [fst snd]; [apply mean_const_update; exact Hm|].
+  destruct (d && (rd_min c <=? n + 1)%Z); [|exact Hmin].
+  right. apply update_mins_const. exact Hmin.
+Qed.
+
+Lemma rebuild_good_fold (c : rddm_cfg RealA) (k : R) (d : bool) :
+  (k = 0 \/ k = 1) -> forall l acc, Forall (slot_ok k) l -> rebuild_good k acc ->
+  rebuild_good k (fold_left (rebuild_one c d) l acc).
+Proof.
+  intros Hk. induction l as [|ov l IH]; intros acc HF Hacc; cbn [fold_left]; [exact Hacc|].
+  inversion HF; subst. apply IH; [assumption|]. apply rebuild_one_good; assumption.
+Qed.
+
+Definition rddm_CInv (k : R) (s : rddm_st RealA) : Prop :=
+  mean_const k (rer s) /\ mins_ok k (rmins s) /\ rdrift s = false /\ rwarning s = false /\
+  slots_ok k (rpred s).
+
+Lemma rdd_drift_case_inv (c : rddm_cfg RealA) (k : R) (s : rddm_st RealA) :
+  (k = 0 \/ k = 1) -> rddm_CInv k s -> rddm_CInv k (rdd_drift_case c s).
+Proof.
+  intros Hk (Hm & Hmin & Hd & Hw & Hq). unfold rdd_drift_case.
+  pose proof (rebuild_good_fold c k (rdrift s) Hk (cq_abs (rpred s)) (0%Z, mean_init, None)
+                (cq_abs_ok k _ Hq)) as HG.
+  destruct (fold_left (rebuild_one c (rdrift s)) (cq_abs (rpred s)) (0%Z, mean_init, None))
+    as [[n er] m].
+  destruct HG as [HG1 HG2].
+  { split; cbn [fst snd]; [apply mean_const_init | left; reflexivity]. }
+  cbn [fst snd] in HG1, HG2.
+  unfold rddm_CInv. cbn [rer rmins rdrift rwarning rpred]. repeat split; auto; apply HG1.
+Qed.
+
+Lemma rddm_constant : forall (c : rddm_cfg RealA) (k : R) ops,
+  (k = 0 \/ k = 1) -> 0 < rd_warn c -> 0 < rd_drift c -> (1 <= rd_min_concept c)%Z ->
+  const_ops k ops ->
+  rdrift (exec (RDDMD RealA) c ops) = false /\ rwarning (exec (RDDMD RealA) c ops) = false.
+Proof.
+  intros c k ops Hk Hw Hd Hmc Hc.
+  assert (H : rddm_CInv k (exec (RDDMD RealA) c ops)).
+  { apply (const_invariant (RDDMD RealA) c k (rddm_CInv k)); [| | reflexivity | exact Hc].
+    - unfold rddm_CInv. cbn [d_init RDDMD rddm_init rer rmins rdrift rwarning rpred].
+      split; [apply mean_const_init|]. split; [left; reflexivity|].
+      split; [reflexivity|]. split; [reflexivity|]. apply slots_ok_init.
+    - intros s0 Hs0. cbn [d_step RDDMD]. unfold rddm_step. cbv zeta.
+      match goal with
+      | |- context [if ?b then rdd_drift_case c ?s1 else ?s1] =>
+          assert (Hs' : rddm_CInv k (if b then rdd_drift_case c s1 else s1));
+          [ assert (Hs1 : rddm_CInv k s1) by exact Hs0;
+            destruct b; [apply rdd_drift_case_inv; assumption | exact Hs1]
+          | revert Hs'; generalize (if b then rdd_drift_case c s1 else s1); intros s' Hs' ]
+      end.
+      destruct Hs' as (Hm & Hmin & _ & _ & Hq).
+      set (pred := match cq_enqueue (rpred s') k with Ok (q, _) => q | Raise _ => rpred s' end).
+      assert (Hpred : slots_ok k pred) by (apply slots_ok_enqueue_or; exact Hq).
+      clearbody pred.
+      destruct (mean_update_const k _ Hm) as [Hm' _].
+      pose proof (mean_const_update k _ Hm) as Hmcu.
+      rewrite Hm'. rewrite (eps_std_const k _ Hk). cbv beta iota.
+      rewrite (update_mins_const k _ Hmin). rewrite !check_thr_const. cbv beta iota.
+      destruct (rd_min c <=? rn s')%Z; unfold rddm_CInv; cbn [rer rmins rdrift rwarning rpred].
+      + split; [exact Hmcu|]. split; [right; reflexivity|]. repeat split; auto.
+      + split; [exact Hmcu|]. split; [exact Hmin|]. repeat split; auto. }
+  destruct H as (_ & _ & H1 & H2 & _). split; assumption.
+Qed.
+
+(* ====================================================================== ADWIN *)
+
+(** every bucket of a row of level [lvl + i] holds [2^(lvl+i)] copies of k *)
+Definition bkt_ok (k : R) (lvl : Z) (b : bkt (A:=RealA)) : Prop := fst b = k * IZR (pow2 lvl).
+
+Fixpoint rows_ok (k : R) (lvl : Z) (rows : list (row (A:=RealA))) : Prop :=
+  match rows with
+  | [] => True
+  | r :: rest => Forall (bkt_ok k lvl) r /\ rows_ok k (lvl + 1) rest
+  end.
+
+Lemma pow2_succ lvl : (0 <= lvl)%Z -> pow2 (lvl + 1) = (2 * pow2 lvl)%Z.
+Proof. intros H. unfold pow2. rewrite Z.pow_add_r by lia. rewrite Z.pow_1_r. lia. Qed.
+
+Lemma merge2_ok k lvl (b1 b2 : bkt (A:=RealA)) : (0 <= lvl)%Z ->
+  bkt_ok k lvl b1 -> bkt_ok k lvl b2 -> bkt_ok k (lvl + 1) (merge2 lvl b1 b2).
+Proof.
+  unfold bkt_ok. intros Hl H1 H2. unfold merge2. cbv zeta. cbn [fst].
+  rewrite H1, H2, pow2_succ by exact Hl. cbn [add RealA num]. rewrite mult_IZR. ring.
+Qed.
+
+Lemma compress_ok (k : R) (m : Z) : forall rows lvl carry, (0 <= lvl)%Z ->
+  rows_ok k lvl rows ->
+  match carry with None => True | Some b => bkt_ok k lvl b end ->
+  rows_ok k lvl (compress m lvl carry rows).
+Proof.
+  induction rows as [|r rest IH]; intros lvl carry Hl Hrows Hcarry; cbn [compress].
+  - destruct carry as [b|]; cbn [rows_ok]; [|exact I]. split; [|exact I].
+    constructor; [exact Hcarry | constructor].
+  - destruct Hrows as [Hr Hrest].
+    set (r1 := match carry with None => r | Some b => r ++ [b] end).
+    assert (Hr1 : Forall (bkt_ok k lvl) r1).
+    { unfold r1. destruct carry as [b|]; [|exact Hr].
+      apply Forall_app. split; [exact Hr|]. constructor; [exact Hcarry | constructor]. }
+    clearbody r1.
+    destruct (Z.of_nat (length r1) =? m + 1)%Z.
+    + destruct r1 as [|b1 [|b2 r2]].
+      * cbn [rows_ok]. split; assumption.
+      * cbn [rows_ok]. split; assumption.
+      * inversion Hr1 as [|? ? Hb1 Hr1']; subst. inversion Hr1' as [|? ? Hb2 Hr2]; subst.
+        cbn [rows_ok]. split; [exact Hr2|].
+        apply IH; [lia | exact Hrest |]. apply merge2_ok; assumption.
+    + cbn [rows_ok]. split; assumption.
+Qed.
+
+Definition sized_ok (k : R) (sb : Z * bkt (A:=RealA)) : Prop := fst (snd sb) = k * IZR (fst sb).
+
+Lemma flat_from_ok (k : R) : forall rows lvl, rows_ok k lvl rows -> Forall (sized_ok k) (flat_from lvl rows).
+Proof.
+  induction rows as [|r rest IH]; intros lvl Hrows; cbn [flat_from]; [constructor|].
+  destruct Hrows as [Hr Hrest]. apply Forall_app. split; [apply IH; exact Hrest|].
+  apply Forall_map. eapply Forall_impl; [|exact Hr].
+  intros b Hb. unfold sized_ok. cbn [fst snd]. exact Hb.
+Qed.
+
+Definition adwin_CInv (k : R) (s : adwin_st RealA) : Prop :=
+  rows_ok k 0 (arows s) /\ atotal s = k * IZR (awidth s).
+
+Lemma adwin_insert_inv (c : adwin_cfg RealA) (k : R) (s : adwin_st RealA) :
+  adwin_CInv k s -> adwin_CInv k (adwin_insert c s k).
+Proof.
+  intros [Hrows Htot]. unfold adwin_insert. cbv zeta. unfold adwin_CInv. cbn [arows atotal awidth].
+  split.
+  - assert (Hb : bkt_ok k 0 (k, zero)).
+    { unfold bkt_ok. cbn [fst]. replace (pow2 0) with 1%Z by reflexivity.
+      change (k = k * 1). ring. }
+    apply compress_ok; [lia | | exact I].
+    destruct (arows s) as [|r0 rest].
+    + cbn [rows_ok]. split; [|exact I]. constructor; [exact Hb | constructor].
+    + destruct Hrows as [Hr0 Hrest]. cbn [rows_ok]. split; [|exact Hrest].
+      apply Forall_app. split; [exact Hr0|]. constructor; [exact Hb | constructor].
+  - cbn [add RealA num]. rewrite Htot, plus_IZR. ring.
+Qed.
+
+Lemma absA_0 : absA (A:=RealA) 0 = 0.
+Proof.
+  unfold absA, zero. cbn [ltb sub ofZ RealA num].
+  replace (Rltb 0 0) with false by (symmetry; apply Rltb_false; lra). reflexivity.
+Qed.
+
+Lemma dp_nonneg (W delta : R) : 0 < delta < 1 -> 2 <= W ->
+  0 <= Rpower.ln (2 * Rpower.ln W / delta).
+Proof.
+  intros Hd HW.
+  assert (Hln : / 2 < Rpower.ln W).
+  { pose proof ln_lt_2 as H2. destruct HW as [HW | <-]; [|exact H2].
+    pose proof (ln_increasing 2 W ltac:(lra) HW). lra. }
+  assert (Hinv : 1 < / delta).
+  { rewrite <- Rinv_1. apply Rinv_lt_contravar; lra. }
+  assert (Hx : 1 < 2 * Rpower.ln W / delta).
+  { unfold Rdiv. nra. }
+  rewrite <- ln_1. left. apply ln_increasing; lra.
+Qed.
+
+Lemma split_exceeds_const (c : adwin_cfg RealA) (k : R) (s : adwin_st RealA) (w0 w1 : Z) (t0 t1 : R) :
+  0 < ad_delta c < 1 -> (1 <= ad_mws c)%Z -> (w0 + w1 = awidth s)%Z ->
+  t0 = k * IZR w0 -> t1 = k * IZR w1 -> split_exceeds c s w0 w1 t0 t1 = false.
+Proof.
+  intros Hd Hmws Hw Ht0 Ht1. unfold split_exceeds.
+  destruct (ad_mws c <? w1)%Z eqn:E1; [|reflexivity].
+  destruct (ad_mws c <? w0)%Z eqn:E0; [|reflexivity].
+  cbn [andb]. unfold eps_cut. cbv zeta.
+  destruct ((w0 =? ad_mws c + 1) || (w1 =? ad_mws c + 1))%Z eqn:E; [reflexivity|].
+  apply Z.ltb_lt in E1, E0. apply orb_false_iff in E. destruct E as [Ea Eb].
+  apply Z.eqb_neq in Ea, Eb.
+  unfold two, one. cbn [add sub mul div sqrt ln ltb ofZ RealA num].
+  assert (Hw0 : IZR w0 <> 0) by (apply not_0_IZR; lia).
+  assert (Hw1 : IZR w1 <> 0) by (apply not_0_IZR; lia).
+  replace (t0 / IZR w0 - t1 / IZR w1) with 0 by (rewrite Ht0, Ht1; field; split; assumption).
+  rewrite absA_0. apply Rltb_false.
+  assert (HW : 2 <= IZR (awidth s)) by (apply IZR_le; lia).
+  pose proof (dp_nonneg _ _ Hd HW) as Hdp.
+  assert (Ha : 0 < 1 / IZR (w0 - (ad_mws c + 1))).
+  { apply Rdiv_lt_0_compat; [lra|]. apply IZR_lt. lia. }
+  assert (Hb : 0 < 1 / IZR (w1 - (ad_mws c + 1))).
+  { apply Rdiv_lt_0_compat; [lra|]. apply IZR_lt. lia. }
+  match goal with |- 0 <= R_sqrt.sqrt ?x + _ => pose proof (sqrt_pos x) as Hs end.
+  match goal with |- 0 <= _ + ?a * ?b => assert (0 <= a * b) by (apply Rmult_le_pos; lra) end.
+  lra.
+Qed.
+
+Lemma scan_const (c : adwin_cfg RealA) (k : R) (s : adwin_st RealA) :
+  0 < ad_delta c < 1 -> (1 <= ad_mws c)%Z ->
+  forall bs w0 w1 t0 t1, Forall (sized_ok k) bs -> (w0 + w1 = awidth s)%Z ->
+    t0 = k * IZR w0 -> t1 = k * IZR w1 -> scan c s bs w0 w1 t0 t1 = false.
+Proof.
+  intros Hd Hmws. induction bs as [|[size b] r IH]; intros w0 w1 t0 t1 HF Hw Ht0 Ht1; cbn [scan].
+  - reflexivity.
+  - cbv zeta. inversion HF as [|? ? Hb Hr]; subst. unfold sized_ok in Hb. cbn [fst snd] in Hb.
+    assert (H0 : @add RealA (k * IZR w0) (fst b) = k * IZR (w0 + size)).
+    { rewrite Hb. cbn [add RealA num]. rewrite plus_IZR. ring. }
+    assert (H1 : @sub RealA (k * IZR w1) (fst b) = k * IZR (w1 - size)).
+    { rewrite Hb. cbn [sub RealA num]. rewrite minus_IZR. ring. }
+    rewrite (split_exceeds_const c k s) by (first [assumption | lia]).
+    apply IH; first [assumption | lia].
+Qed.
+
+Lemma found_cut_const (c : adwin_cfg RealA) (k : R) (s : adwin_st RealA) :
+  0 < ad_delta c < 1 -> (1 <= ad_mws c)%Z -> adwin_CInv k s -> found_cut c s = false.
+Proof.
+  intros Hd Hmws [Hrows Htot]. unfold found_cut.
+  apply (scan_const c k s Hd Hmws).
+  - unfold flat. apply flat_from_ok. exact Hrows.
+  - lia.
+  - unfold zero. cbn [ofZ RealA]. ring.
+  - exact Htot.
+Qed.
+
+Lemma adwin_constant : forall (c : adwin_cfg RealA) (k : R) ops,
+  0 <= k -> 0 < ad_delta c < 1 -> (1 <= ad_m c)%Z -> (1 <= ad_mws c)%Z -> (1 <= ad_clock c)%Z ->
+  const_ops k ops -> adrift (exec (ADWIND RealA) c ops) = false.
+Proof.
+  intros c k ops Hk Hd Hm Hmws Hclk Hc.
+  assert (H : adwin_CInv k (exec (ADWIND RealA) c ops) /\ adrift (exec (ADWIND RealA) c ops) = false).
+  { apply (const_invariant (ADWIND RealA) c k (fun s => adwin_CInv k s /\ adrift s = false));
+      [| | reflexivity | exact Hc].
+    - split; [|reflexivity]. unfold adwin_CInv.
+      cbn [d_init ADWIND adwin_init arows atotal awidth rows_ok].
+      split; [split; [constructor | exact I]|]. change (0 = k * 0). ring.
+    - intros s [Hs _]. cbn [d_step ADWIND]. unfold adwin_step. cbv zeta.
+      pose proof (adwin_insert_inv c k s Hs) as Hs1.
+      destruct (is_check c (an s + 1) (awidth (adwin_insert c s k))).
+      + cbn [shrink]. rewrite (found_cut_const c k _ Hd Hmws Hs1). cbv beta iota.
+        unfold adwin_CInv. cbn [arows atotal awidth adrift]. split; [exact Hs1 | reflexivity].
+      + unfold adwin_CInv. cbn [arows atotal awidth adrift]. split; [exact Hs1 | reflexivity]. }
+  destruct H as [_ H]. exact H.
+Qed.
